@@ -34,7 +34,7 @@ mutual
 def FragE (σ : Subst) : Expr → Prop
   | .var x ty => specializeValueP F x (substTy σ ty) = none
   | .prim _ => True
-  | .tag _ _ => True
+  | .tag _ _ => False   -- ANF only (its value depends on the annotation)
   | .constr k ty args => FragL σ args ∧ updateCtor k (substTy σ ty) = k
   | .tuple _ items => FragL σ items
   | .array _ items => FragL σ items
@@ -256,7 +256,7 @@ theorem simE_step (n : Nat) (hE : SimE F isLocal U Ext P P' n) (hL : SimL F isLo
     simp only [FragE] at hfr
     simp only [monoE, monoVarP, hfr, eval]
   | prim p => simp only [monoE, eval]
-  | tag i ty => simp only [monoE, eval]
+  | tag i ty => simp only [FragE] at hfr
   | constr k ty args =>
     simp only [FragE] at hfr
     simp only [monoE, eval, hL σ args ρ w hfr.1 hρ, hfr.2]
